@@ -210,6 +210,16 @@ def encrypt_blob(repo: Repo, chk: Check) -> None:
         fresh_value(repo, chk, f, ps, cea.get("cek"), "content key", 32, Site.of(f, ce[0].node, "content key"))
         same = cea.get("cek") is not None and ps.key(cea.get("cek")) == ps.key(kea.get("value"))
         chk.ob("O4", Site.of(f, ke[0].node), bool(same), "cek_encrypt wraps the key that encrypted the content" if same else f"cek_encrypt wraps {ps.text(kea.get('value'))}, content was encrypted with {ps.text(cea.get('cek'))}")
+        # ---- KEK and key identifier: the two results of one key.new_kek() call made on this path (never a kept pair)
+        nk = [c for c in ps.calls("new_kek") if ps.text(recv_of(t.cast(ast.Call, c.tree))) == "key"]
+        blob = ps.calls("DPAPINGBlob")
+        kid = ev_args(repo, f, blob[0]).get("key_identifier") if len(blob) == 1 else None
+        want_kek = ps.key(nk[0].tree) + "[0]" if len(nk) == 1 else None
+        want_kid = ps.key(nk[0].tree) + "[1]" if len(nk) == 1 else None
+        okk = want_kek is not None and kea.get("kek") is not None and ps.key(kea.get("kek")) == want_kek
+        chk.ob("O1", Site.of(f, ke[0].node, "key encryption key"), bool(okk), "cek_encrypt is keyed with the KEK of a key.new_kek() call made for this encryption" if okk else f"the KEK given to cek_encrypt is {ps.text(kea.get('kek'))[:80]} with {len(nk)} key.new_kek() call(s) on the path: a KEK (and its key identifier nonce / ephemeral key) kept from an earlier call is reused")
+        oki = want_kid is not None and kid is not None and ps.key(kid) == want_kid
+        chk.ob("O1", Site.of(f, blob[0].node if blob else None, None if blob else "key identifier"), bool(oki), "the blob carries the key identifier of that same new_kek() call" if oki else f"the key identifier written into the blob is {ps.text(kid)[:80] if kid is not None else 'missing'}: not the second result of this call's key.new_kek()")
         # ---- nonce: the octet string written into the GCM parameters, by a writer created on this path
         params = cea.get("parameters")
         okp = isinstance(params, ast.Call) and isinstance(params.func, ast.Attribute) and params.func.attr == "get_data" and ps.text(params.func.value) == "ASN1Writer()"
